@@ -2,6 +2,7 @@
   C18 — Exactly the requested closure is considered.
 -/
 import N2V.Lemmas.SchedClosure
+import N2V.Lemmas.SchedComplete
 import N2V.Lemmas.SchedExamples
 import N2V.Model.Run
 namespace N2V.C18
@@ -74,5 +75,19 @@ theorem want_marks_only_needed (g : Graph) (s s' : S) (f : Nat) (h : want g s f 
 example : Needs Ex.g0 2 0 :=
   .step (b := 1) (f' := 1) (.direct (show Ex.g0.producer 2 = some 1 by decide)) (by decide)
     (.direct (show Ex.g0.producer 1 = some 0 by decide))
+
+/-- **... and everything in the requested closure IS considered**: when `run::build` reports
+    success, every build that a requested file — the manifest; the command-line names that
+    resolve, else the `default`s, else every file — needs through explicit, implicit, order-only
+    or validation inputs has left `Unknown` (and, by `C06.success_means_all_up_to_date`, is Done).
+    Together with `only_requested_closure`: exactly the requested closure.  Proof: the want phase
+    keeps "every marked build that is not inside its own loop over validation inputs has the
+    producers of all its inputs marked" (`Sched.complete_all`, a joint induction over
+    `want_file` / `want_build` / the two input loops, re-entrant visits included), and neither
+    `Work::run` nor later `want_file` calls un-mark anything (`runLoop_mono`). -/
+theorem requested_closure_is_marked {E : Type} {g : Graph} (gok : GraphOK g) (a : Run.Args) (c : Choices E) (e : E)
+    (n : Nat) (h : (Run.build g a c e).2.2 = .done n) (b : Nat) (hW : Run.Wanted g a b) :
+    (Run.build g a c e).1.st b ≠ .unknown :=
+  Run.build_complete gok a c e n h b hW
 
 end N2V.C18
